@@ -286,6 +286,11 @@ func checkSettle1(c Case, r *vf.R) error {
 		return v
 	}
 	v1, v2 := vs(outp), vs(outp2)
+	if len(v1)*len(v2) > 4000000 {
+		// quadratic comparison: a finely flattened large curve would take hours
+		r.Class("large-output(vertex comparison skipped)")
+		return nil
+	}
 	for _, a := range v2 {
 		// every vertex of the re-settled path lies on the settled path's boundary
 		if d := oracle.Dist(outp, a); d > 4e-8 {
